@@ -37,6 +37,12 @@ fn points_days(t: i64) -> Vec<i64> {
     let h = t * 3 / 2;
     // a snapshot stamped ahead of the server's clock (clock stepped back) has a negative age
     let mut v: Vec<i128> = vec![-400, -2, -1, 0, t - 1, t, t + 1, h - 1, h, h + 1, 2 * t, MAX_AGE_DAYS as i128];
+    // snapshots stamped at remarkable instants of the time scale (a device whose clock was not set:
+    // the Unix epoch and its neighbourhood; 10^8 and 10^9 seconds; before 1970; 1901)
+    let now = chrono::Utc::now().timestamp() as i128;
+    for stamp in [0i128, 86_400, 31_536_000, 100_000_000, 99_999_999, -100_000_000, 1_000_000_000, -1, -86_400, -2_147_483_648, 45_000_000] {
+        v.push((now - stamp) / 86_400);
+    }
     v.retain(|x| *x >= -400 && *x <= MAX_AGE_DAYS as i128);
     v.sort();
     v.dedup();
@@ -281,6 +287,66 @@ pub fn shard_run(tier: &str, seed: u64, replay_case: Option<usize>, shard: Shard
                     });
                     out.cov = cov;
                     return out;
+                }
+            }
+        }
+    }
+    // ---- directories written by the pinned release (vendored crates), opened by the current code:
+    // the versions-since counter and the snapshot time must carry over, so that the first AddVersion
+    // after the upgrade reports the urgency the stored values call for
+    let n_up = if thorough { 400 } else { 36 };
+    for i in 0..n_up {
+        if replay_case.is_some() || !shard.mine(i + 5) {
+            continue;
+        }
+        let d = crate::scratch::ScratchDir::new("c12up");
+        let wseed = Rng::new(seed).fork(0xC12_0000 + i as u64).next_u64();
+        let Ok(exp) = crate::checks_c19::write_pinned(d.path(), wseed, false) else { continue };
+        let cfg = Config { snapshot_days: *Rng::new(wseed).pick(&[14i64, 2, 100, 400]), snapshot_versions: *Rng::new(wseed ^ 1).pick(&[2u32, 4, 6, 10, 30, 100]) };
+        let mut subj = match Subject::open_dir(Kind::SQL_LIB, cfg, d) {
+            Ok(s) => s,
+            Err(e) => {
+                out.errors.push(format!("open pinned directory: {e:#}"));
+                continue;
+            }
+        };
+        for c in &exp.clients {
+            let Some(es) = &c.snapshot else { continue };
+            let Some(last) = c.versions.last() else { continue };
+            cov.evaluations += 1;
+            let rec = subj.storage.txn(c.id).ok().and_then(|mut t| t.get_client().ok().flatten()).and_then(|r| r.snapshot);
+            let case = json!({"origin": "pinned-upgrade", "case": 2_000_000 + i, "writer_seed": wseed.to_string()});
+            match rec {
+                Some(s) if s.versions_since == es.since && s.timestamp.timestamp() == es.ts => {}
+                o => {
+                    out.found.push(Found {
+                        property: "C12".into(),
+                        msg: format!("a directory written by the pinned release holds a snapshot with {} versions since, stamped {}; opened by the current code the client record reads {:?}", es.since, es.ts, o.map(|s| (s.versions_since, s.timestamp.timestamp()))),
+                        signature: "C12:upgrade counter".into(),
+                        replay: case,
+                    });
+                    out.cov = cov;
+                    return out;
+                }
+            }
+            let age = (chrono::Utc::now().timestamp() - es.ts) / 86400;
+            let want = (spec_urgency(&cfg, Some((age, es.since))), spec_urgency(&cfg, Some((age, es.since.saturating_add(1)))));
+            match subj.exec(c.id, &Req::AddVersion { parent: last.vid, data: b"first version after the upgrade".to_vec() }) {
+                Resp::AddOk { urg, .. } => {
+                    cov.hit(format!("pinned-upgrade:first-add-version:{urg:?}"));
+                    if urg != want.0 && urg != want.1 {
+                        out.found.push(Found {
+                            property: "C12".into(),
+                            msg: format!("first AddVersion after opening a directory written by the pinned release (snapshot aged {age} days, {} versions since; targets days={}, versions={}) reported urgency {urg:?}; the stored values call for {:?}", es.since, cfg.snapshot_days, cfg.snapshot_versions, want.0),
+                            signature: "C12:upgrade urgency".into(),
+                            replay: case,
+                        });
+                        out.cov = cov;
+                        return out;
+                    }
+                }
+                o => {
+                    out.errors.push(format!("pinned-upgrade: AddVersion on the latest version answered {}", o.short()));
                 }
             }
         }
